@@ -227,6 +227,21 @@ func init() {
 		gen: func(r *Rng, n int, tier string) {
 			g := &EvGen{r: r}
 			lines := 0
+			// one large store per run: many created_at ties, more events than any page / batch size in the code
+			{
+				var msgs []mocrelay.ClientMsg
+				for i, k := 0, 1200+r.Intn(700); i < k; i++ {
+					e := g.Event()
+					if e.EventType() == mocrelay.EventTypeEphemeral || r.P(70) {
+						e.Kind = 1
+					}
+					msgs = append(msgs, &mocrelay.ClientEventMsg{Event: e})
+				}
+				qs := [][]*mocrelay.ReqFilter{{{}}, {{Limit: ptr(int64(1100))}}, {{Kinds: []int64{1}}}, {{Authors: []string{authors[0]}, Limit: ptr(int64(300))}}, {{Since: ptr(int64(3)), Until: ptr(int64(9))}}}
+				c16CacheHistory(nil, nil, msgs, 3000, qs, false, 0)
+				lines += len(msgs)
+				g.made = nil
+			}
 			for lines < n {
 				k := r.Range(5, 30)
 				if r.P(80) {
